@@ -25,6 +25,18 @@ CLAIMED = {
  "C14": core("DynamicRootSet is part of the collector model: per set object the slot table (occupied/vacant, refcount, free list) transcribed from Slots::add/inc/dec, the set's strong children DERIVED from its occupied slots, handles as records outside the arena that survive it.  TLC checks slot-table well-formedness (refcount = handles - 1, free list = vacant slots), 'slot reuse never retargets a live handle', keeps-alive and (through C02_Exact) collectability for every interleaving of new_set / stash / clone / drop / remove_set with collection increments up to the stated length; class witnesses (phase x colour of set and object x slot reuse x refcount) are replayed in the real crate, where after every operation every handle is presented to every set (contains, try_fetch, fetch) and the monitor checks acceptance, identity of the fetched object, harmless handle operations after the set or arena is gone, plus C01/C02 with stashed objects as roots."),
  "C20": {**core("TwoArenas.tla composes two instances of the collector model on disjoint variables (frame property C20_Frame checked by TLC) and enumerates their interleavings, including dropping one arena in every phase of the other; the harness runs them on two real arenas of one thread with different pacing, re-observes the OTHER arena after every operation, and the monitor requires (r1) that values are destructed/released only by operations on their own arena, (r2) that phase, count and debt of an arena are unchanged by anything that happened since its own last operation, and each arena's C01-C05 rules."), "category": "exploration",
          "note": "Model checking of the composition is vacuous by construction and is not what is claimed; the claim is trace validation of interleaved real executions drawn from the model (exploration). Foreign handles are covered under C14 (handles of one set presented to another set)."},
+ "C17": {"engine": "sat", "category": "model_checking", "design_ref": "DESIGN.md 6 (C17)",
+   "text": "Layout.tla is an integer transcription of the crate's layout computation (Layout::extend / pad_to_align, META_HEADER_LAYOUT, prefix_header_layout, SliceWithHeader::layout).  TLC checks, for every point of a grid of sized values (23 sizes x 9 alignments up to 4096), slices, strs and slices-with-header (zero-sized headers, elements and lengths included), that the value is aligned, that header and metadata lie inside the block, aligned and disjoint from the value, and that the block is exactly offset + size; it prints the grid, each point is allocated through the public API under the tracking allocator (guard bytes), its bytes and address are re-checked across collections in every phase, it is released, and LayoutTrace.tla validates block layout, value offset, release layout, guard bytes and the fat/thin/raw round trips against Expect().",
+   "note": "Exhaustive over the stated grid only; GcHeader 16/8 assumed for this target.",
+   "technique": "TLC enumeration of Layout.tla's grid with layout invariants + execution of every grid point in the real crate + TLC trace validation (LayoutTrace.tla)"},
+ "C18": {"engine": "sat", "category": "model_checking", "design_ref": "DESIGN.md 6 (C18)",
+   "text": "MC_Builder.tla walks every builder life cycle (GcBuilder, slice-with-header, slice, str; n <= 4; abandon before header / after header / element constructor k panics / complete / copy with right or wrong length; four element kinds) through a transcription of the Drop impls and checks that the terminal state agrees with Outcome(); every life cycle is replayed in the real crate (drop log per part, tracked block, count and debt before/after, collections afterwards) and BuilderTrace.tla validates: invisible unless completed, released once with its layout, exactly the initialised parts destructed, never visited by a later collection, completed contents equal what was written, wrong-length copies rejected.",
+   "note": "Exhaustive for n <= 4 and the listed element kinds.",
+   "technique": "TLC enumeration of builder life cycles (MC_Builder.tla) + replay of each in the real crate + TLC trace validation (BuilderTrace.tla)"},
+ "C19": {"engine": "sat", "category": "model_checking", "design_ref": "DESIGN.md 6 (C19), 7 (F5)",
+   "text": "Convert.tla defines views and the conversion edges the type system allows per target; TLC enumerates all 1499 conversion chains up to length 4 over sized, slice, str and zero-sized targets (erase, erase_kind, downgrade/upgrade, unsize!, as_thin/as_fat, raw round trips, DynamicRootSet stash+fetch) and the ZST-cache grid (7 alignments x 3 cache alignments x ZST/non-ZST); each chain is applied to a real pointer and ConvertTrace.tla validates ptr_eq / same address, dereference to the original value, that storing ONLY the final handle keeps the value alive iff the handle is strong, that a weak one reports is_dropped, and that the value is destructed once as its original type.  The 'never conjures' clause is decided by compile probes (alloc_zst on an uninhabited / sealed type, cast, from_ptr must be rejected in safe code; their positive twins accepted).",
+   "note": "Chains exhaustive to length 4; the conjuring clause rests on rustc judging the probes (fixed defect F5: alloc_zst is now unsafe).",
+   "technique": "TLC enumeration of conversion chains (MC_Convert.tla) + execution in the real crate + TLC trace validation (ConvertTrace.tla) + rustc compile probes"},
  "C09": {"engine": "pacing", "category": "model_checking", "design_ref": "DESIGN.md 3.3, 6 (C09)",
    "text": "MC_Pacing.tla is the collector model with the crate's real debt arithmetic (integers scaled by 16, exact for dyadic pacings); TLC checks collect_debt-pays, stop-or-paid, stop-the-world, the rho bound (with the antecedent 'woke with positive debt') and the sleep promise for four pacings over every history of bounded length.  Every emitted behaviour is replayed in the real crate with EQUALITY of allocation_debt()*16 and the Gc count after every operation; a seeded random driver (heaps up to 64 roots, bursts, all-survive / all-garbage / shells / mixed workloads, random dyadic pacings incl. stop-the-world and rho = 15/16) explores larger H; the monitor's C09 rules judge every recorded call.",
    "note": "Trusted base: TLC, the harness. Equality of debts only for dyadic factors; the rho bound is exhaustive for 2-object heaps only and explored (not proved) beyond; sleep rule applied after atomic cycles only (weaker reading).",
@@ -64,6 +76,9 @@ m = {
            "baseline_off_cmd": "cd /repo && cargo test --workspace --no-fail-fast --offline",
            "source_commits": hook_commits, "add_only": True},
  "engines": [
+   {"name": "sat", "path": "/verif/spec/Layout.tla /verif/spec/Builder.tla /verif/spec/Convert.tla (+ MC_* and *Trace modules) /verif/sat /verif/runner/engines_sat.py",
+    "serves_properties": ["C17", "C18", "C19"],
+    "kind_free_text": "finite spaces (layout grid, builder life cycles, conversion chains) enumerated and invariant-checked by TLC, executed element by element in the real crate, observations validated by TLC trace specifications"},
    {"name": "pacing", "path": "/verif/spec/MC_Pacing.tla /verif/spec/GcHeap.tla /verif/spec/GcMonitor.tla /verif/harness/src/driver.rs",
     "serves_properties": ["C09", "C10"],
     "kind_free_text": "the collector model with exact (scaled-integer) debt arithmetic checked by TLC; behaviours replayed with equality of debts; seeded random driver; traces validated by TLC against the monitor"},
